@@ -186,6 +186,18 @@ class C14(Check):
                             out.fail("C14." + direction, "%s: reader raised %s: %s" % (where, type(ex).__name__, ex), "reader-raised:" + type(ex).__name__)
                             continue
                         out.stats["messages:" + direction] += 1
+                        if i % 4 == 0:
+                            # the reader's result is a value of its own: the receiver may modify it in place; the next reception of
+                            # the same data must read the same
+                            from .c07 import _scribble
+                            try:
+                                o1 = pydsdl.deserialize(rnode.types[k], data)
+                                _scribble(o1)
+                                again = R.norm(pydsdl.deserialize(rnode.types[k], data))
+                                if again != got:
+                                    out.fail("C14." + direction, "%s: after the receiver modified an earlier result in place, the same data reads as %r (was %r)" % (where, again, got), "result-shared")
+                            except Exception as ex:
+                                out.fail("C14." + direction, "%s: repeated reception raised %s" % (where, type(ex).__name__), "repeat-raised")
                         peer = R.norm(R.decode(rres, k, 0, data))
                         if got != expect:
                             oracle = "C14.after" if self._only_after_differs(got, expect) else "C14." + direction
